@@ -59,19 +59,23 @@ type GhostField struct {
 }
 
 type Contracts struct {
-	Funcs     map[string]*FuncContract
-	Specs     map[string]*SpecDef
-	Lemmas    []*Lemma
-	Callbacks map[string]*FuncContract
-	Ghosts    []GhostField
-	Guards    map[string][]string // mutex field -> guarded fields
-	Atomic    map[string]bool
-	Immutable map[string]bool
-	Consts    map[string]*CExpr
-	Monitors  map[string]*Clause // "Struct.mutexField" -> invariant over self
-	Ctors     map[string]bool    // functions allowed to assign immutable fields
-	Axioms    []*Lemma
-	File      string
+	Funcs       map[string]*FuncContract
+	Specs       map[string]*SpecDef
+	Lemmas      []*Lemma
+	Callbacks   map[string]*FuncContract
+	Ghosts      []GhostField
+	Guards      map[string][]string // mutex field -> guarded fields
+	Confined    []ConfinedDecl
+	SharedTypes []string
+	OwnedTypes  []string
+	gspec       *GuardSpec
+	Atomic      map[string]bool
+	Immutable   map[string]bool
+	Consts      map[string]*CExpr
+	Monitors    map[string]*Clause // "Struct.mutexField" -> invariant over self
+	Ctors       map[string]bool    // functions allowed to assign immutable fields
+	Axioms      []*Lemma
+	File        string
 }
 
 var (
@@ -86,7 +90,14 @@ var clauseKeywords = map[string]bool{
 	"requires": true, "ensures": true, "modifies": true, "loop": true, "inline": true, "pure": true,
 	"trusted": true, "panics": true, "iterator": true, "itercount": true, "iterelem": true, "allocates": true, "counted": true, "callsite": true, "section": true, "nomodcheck": true, "unroll": true, "ghostret": true, "opaque": true,
 }
+
+type ConfinedDecl struct {
+	Funcs  []string
+	Fields []string
+}
+
 var topKeywords = map[string]bool{
+	"confined": true, "shared": true, "owned": true,
 	"func": true, "pred": true, "spec": true, "lemma": true, "callback": true, "ghost": true,
 	"guard": true, "atomic": true, "immutable": true, "const": true, "end": true, "axiom": true,
 	"monitor": true, "constructor": true,
@@ -266,6 +277,19 @@ func loadContractsInto(c *Contracts, path string) (*Contracts, error) {
 			for _, f := range strings.Fields(rest) {
 				c.Atomic[f] = true
 			}
+			cur = nil
+		case "confined":
+			k := strings.Index(rest, ":")
+			if k < 0 {
+				return nil, fail("confined Func[,Func] : Struct.field ...")
+			}
+			c.Confined = append(c.Confined, ConfinedDecl{Funcs: strings.Split(strings.TrimSpace(rest[:k]), ","), Fields: strings.Fields(rest[k+1:])})
+			cur = nil
+		case "shared":
+			c.SharedTypes = append(c.SharedTypes, strings.Fields(rest)...)
+			cur = nil
+		case "owned":
+			c.OwnedTypes = append(c.OwnedTypes, strings.Fields(rest)...)
 			cur = nil
 		case "immutable":
 			for _, f := range strings.Fields(rest) {
